@@ -203,7 +203,7 @@ func cloneMsg1(pay string, scale int) *mqtt.Message {
 }
 
 func cloneMsg2(scale int) *mqtt.Message {
-	return &mqtt.Message{Topic: "t/b", ID: 9, QoS: mqtt.QoS2, Retain: false, Dup: false, Payload: cloneBuild([]int{11, 12}, 2, scale)}
+	return &mqtt.Message{Topic: "t/b", ID: 9, QoS: mqtt.QoS2, Retain: true, Dup: false, Payload: cloneBuild([]int{11, 12}, 2, scale)}
 }
 
 func runCloneCase(raw json.RawMessage) interface{} {
